@@ -89,7 +89,9 @@ theorem bnEval_sound : ∀ (fuel : Nat) (ρ : TEnv) (e : AST) (v : TVal), bnEval
                       · rename_i x y h1 h2; cases h; exact BN.ltInt hn (ih _ _ _ h1) (ih _ _ _ h2)
                       · cases h
                     · cases h
-                  · cases h
+                  · split at h
+                    · rename_i hn; cases h; exact BN.mkList hn
+                    · cases h
       · rename_i hl
         have hf : tagOf f = none := by rw [← isLit_eq_tagOf]; exact hl
         split at h
@@ -98,6 +100,17 @@ theorem bnEval_sound : ∀ (fuel : Nat) (ρ : TEnv) (e : AST) (v : TVal), bnEval
         · rename_i bb hc
           split at h
           · rename_i x y; exact BN.sel hf (ih _ _ _ hc) (ih _ _ _ h)
+          · cases h
+        · rename_i elems hc
+          split at h
+          · rename_i a
+            split at h
+            · rename_i i ha
+              split at h
+              · rename_i e' ρ' hidx
+                exact BN.index hf (ih _ _ _ hc) (ih _ _ _ ha) hidx (ih _ _ _ h)
+              · cases h
+            · cases h
           · cases h
         · cases h
 
